@@ -36,13 +36,56 @@ import c19_lang as L
 FMTS = L.FORMATS
 
 
+INFO_CACHE = os.path.join(vv.VERIF, "gen", "c19_templates_last.json")
+
+
+def _enc(o):
+    if isinstance(o, bytes):
+        return {"__b": o.hex()}
+    if isinstance(o, (list, tuple)):
+        return [_enc(x) for x in o]
+    if isinstance(o, dict):
+        return {k: _enc(v) for k, v in o.items()}
+    return o
+
+
+def _dec(o):
+    if isinstance(o, dict) and "__b" in o:
+        return bytes.fromhex(o["__b"])
+    if isinstance(o, list):
+        return [_dec(x) for x in o]
+    if isinstance(o, dict):
+        return {k: _dec(v) for k, v in o.items()}
+    return o
+
+
+def _tuples(info):
+    """json turned the display tuples into lists"""
+    info = dict(info)
+    info["disp"] = [tuple([e[0]] + ([[tuple(p) for p in e[1]]] if len(e) > 1 else [])) for e in info["disp"]]
+    return info
+
+
 def regen_templates(snap):
-    """returns (infos, problems, regenerated?)"""
+    """returns (infos, problems, regenerated?).  The class descriptions of the last successful
+    regeneration are kept in gen/c19_templates_last.json: a class whose display() left the translator's
+    subset keeps being generated and compared, with its last known description (the model then is the
+    checked-in Gen/Templates.v, tie = correspondence only)"""
     infos, problems, text = tpl.generate(snap)
     if problems:
+        try:
+            with open(INFO_CACHE) as f:
+                cached = [_tuples(_dec(i)) for i in json.load(f)]
+        except (OSError, ValueError):
+            cached = []
+        have = {i["ident"] for i in infos}
+        infos = infos + [i for i in cached if i["ident"] not in have]
+        order = checked_in_order()
+        infos.sort(key=lambda i: order.index(i["ident"]) if i["ident"] in order else len(order))
         return infos, problems, False
     with vv.Lock("coq"):
         vv.write_if_changed(os.path.join(vv.COQ, "Gen", "Templates.v"), text)
+        vv.write_if_changed(INFO_CACHE, json.dumps([_enc(i) for i in infos], indent=0, sort_keys=True))
     return infos, [], True
 
 
@@ -185,15 +228,19 @@ def exec_batch(cases):
     try:
         src = os.path.join(d, "exec.c")
         with open(src, "w") as f:
-            f.write("#include <stdio.h>\n#include <stdint.h>\n" + L.C_PRELUDE)
+            f.write("#define _POSIX_C_SOURCE 200809L\n#include <stdio.h>\n#include <stdint.h>\n#include <signal.h>\n#include <setjmp.h>\n" + L.C_PRELUDE)
+            f.write("static sigjmp_buf JB; static void on_fpe(int s) { (void)s; siglongjmp(JB, 1); }\n")
             f.write("static double D(uint64_t u) { double d; memcpy(&d, &u, 8); return d; }\n")
             f.write("static void P(int k, double d) { uint64_t u; memcpy(&u, &d, 8); printf(\"%d %016llx\\n\", k, (unsigned long long)u); }\n")
             for k, c, text in cases:
                 f.write(L.c_function(c, k, text) + "\n")
-            f.write("int main(void) {\n")
+            f.write("int main(void) {\n  struct sigaction sa; memset(&sa, 0, sizeof sa); sa.sa_handler = on_fpe; "
+                    "sigemptyset(&sa.sa_mask); sigaction(SIGFPE, &sa, 0);\n")
             for k, c, text in cases:
                 for v in c.vectors:
-                    f.write("  P(%d, f%d(%s));\n" % (k, k, ", ".join("D(0x%016xULL)" % b for b in v)))
+                    # an integer division by zero in the text traps: reported as TRAP, the run goes on
+                    f.write("  if (sigsetjmp(JB, 1) == 0) P(%d, f%d(%s)); else printf(\"%d TRAP\\n\");\n"
+                            % (k, k, ", ".join("D(0x%016xULL)" % b for b in v), k))
             f.write("  return 0;\n}\n")
         exe = os.path.join(d, "exec")
         p = subprocess.run(["gcc", "-std=c11", "-O0", "-w", src, "-lm", "-o", exe],
@@ -262,6 +309,9 @@ def python_exec_batch(items):
         if w:
             out[int(w[0])] = w[1:]
     return out
+
+
+UNCOMPILABLE = ("not-an-expression", "rejected-by-compiler", "template-unreadable")
 
 
 def close_enough(a_bits, b_bits):
@@ -357,6 +407,7 @@ def run_(ck):
         cases += g.pair_cases()
         cases += g.untyped_pair_cases()
         cases += g.string_cases()
+        cases += g.intlit_cases()
         cases += g.rowshare_cases(3000 if ck.thorough else 500, depth=6 if ck.thorough else 4)
         rc_ = g.random_cases(6000 if ck.thorough else 600, depth=6 if ck.thorough else 4)
         for i, c in enumerate(rc_):
@@ -461,7 +512,13 @@ def run_(ck):
                 except L.ParseError as e:
                     failures.append((f, "not-an-expression", k, str(e)))
                     continue
-                if got != want:
+                if f != "py":
+                    ints = L.integer_literals_for_reals(c, f, catalog)
+                    if ints:
+                        failures.append((f, "real-constant-printed-as-integer-literal", k,
+                                         "the real-valued constant(s) %s are integer literals in %s: arithmetic on them is "
+                                         "integer arithmetic (7/2 is 3)" % (", ".join(sorted(set(ints))[:4]), f)))
+                if L.norm_ast(got, f) != L.norm_ast(want, f):
                     failures.append((f, "denotes-another-expression", k,
                                      "reads as %s, the program is %s" % (L.show_ast(got)[:300], L.show_ast(want)[:300])))
 
@@ -493,7 +550,7 @@ def run_(ck):
     # oracle (c): execution of the C text against the interpreter
     ex_cases = [(k, c, impl[k][0]["c"].decode("latin-1")) for k, c in enumerate(cases)
                 if c.vectors is not None and impl[k] and impl[k][0]
-                and not any(fl[2] == k and fl[0] == "c" for fl in failures)]
+                and not any(fl[2] == k and fl[0] == "c" and fl[1] in UNCOMPILABLE for fl in failures)]
     executed = 0
     if ex_cases:
         out, err = exec_batch(ex_cases)
@@ -508,6 +565,12 @@ def run_(ck):
                     if not v.startswith("d:") or j >= len(got):
                         continue          # the interpreter yields no value (or not a real) on this input
                     executed += 1
+                    if got[j] == "TRAP":
+                        failures.append(("c", "computes-another-value", k,
+                                         "on input %s the interpreter returns %r, the compiled C text traps (SIGFPE: "
+                                         "integer division by zero)" % ([L.dbl_of(b) for b in c.vectors[j]],
+                                                                        L.dbl_of(int(v[2:], 16)))))
+                        break
                     if not close_enough(int(v[2:], 16), int(got[j], 16)):
                         failures.append(("c", "computes-another-value", k,
                                          "on input %s the interpreter returns %r, the compiled C text %r"
